@@ -42,8 +42,18 @@ def step {α : Type} (s : St α) : Ev α → St α
 
 def run {α : Type} (s : St α) (es : List (Ev α)) : St α := es.foldl step s
 
+/-- tokio's broadcast channel rounds the requested capacity up to a power of two -/
+def nextPow2 : Nat → Nat → Nat → Nat
+  | 0, p, _ => p
+  | fuel + 1, p, n => if p < n then nextPow2 fuel (2 * p) n else p
+
+def effectiveCapacity : Nat := nextPow2 64 1 Consts.queueSizeCommand
+
+/-- the capacity the property is stated for ("the capacity of 16") -/
+def statedCapacity : Nat := 16
+
 def init (α : Type) (networks : Nat) : St α :=
-  { ring := { cap := Consts.queueSizeCommand }, cons := List.replicate networks {} }
+  { ring := { cap := effectiveCapacity }, cons := List.replicate networks {} }
 
 /-- let one consumer run until its queue is empty (fuel = retained values + 2) -/
 def drain {α : Type} (c : Cons α) (r : Ring α) : Nat → Cons α
